@@ -862,11 +862,11 @@ static void run_case (char *line) {
   MIR_finish (ctx);
 }
 
-/* Watchdog: every case runs under a CPU-time limit (ITIMER_PROF, C14_HANG_CPU seconds, default 10) and a wall-clock
+/* Watchdog: every case runs under a CPU-time limit (ITIMER_PROF, C14_HANG_CPU seconds, default 6) and a wall-clock
    limit (alarm, C14_HANG_WALL, default 120).  When one expires - the library or the code it generated loops forever on
    the tree under test - the case's line is closed with the token `HANG@case` and the process exits with code 124: the
    check takes `HANG ...` as the outcome of the case (a disagreement with the model) and restarts the harness after it. */
-static int hang_cpu = 10, hang_wall = 120;
+static int hang_cpu = 6, hang_wall = 120;
 static void on_hang (int sig) {
   (void) sig;
   /* not async-signal-safe in general; the loops this is for spin inside MIR / generated code, not inside stdio */
